@@ -133,6 +133,13 @@ def after (frm : Option Path) (q : Path) : Bool :=
   | none => true
   | some f => pathLt f q
 
+/-- bytes.Compare(a, b) < 0. -/
+def bytesLt : Bytes → Bytes → Bool
+  | [], [] => false
+  | [], _ :: _ => true
+  | _ :: _, [] => false
+  | a :: as, b :: bs => if a < b then true else if b < a then false else bytesLt as bs
+
 /-- direction of the result. -/
 def dir {α} (back : Bool) (l : List α) : List α := if back then l.reverse else l
 
